@@ -12,7 +12,7 @@ def getKind? (s : String) (empty : Bool) : Except String Kind :=
   | "str" => .ok (.str empty) | "date" => .ok .date | "datetime" => .ok .datetime
   | "timedelta" => .ok .timedelta | "bytes" => .ok .bytes | "obj" => .ok .obj
   | "npbool" => .ok .npbool | "npint" => .ok .npint | "npfloat" => .ok .npfloat
-  | "npdt" => .ok .npdt | "npstr" => .ok .npstr
+  | "npdt" => .ok .npdt | "npstr" => .ok .npstr | "datesub" => .ok .datesub
   | _ => .error s!"bad kind {s}"
 
 def dclassStr : DClass → String
